@@ -38,7 +38,7 @@ theorem checkAvail_ok_iff (b : IoBufs) (l : Nat) (hov : b.consumed + total b.seg
   · simp [h1]
     omega
   · by_cases h2 : l > total b.segs
-    · simp [h1, h2]; omega
+    · simp [h1, h2]
     · simp [h1, h2]; omega
 
 theorem checkAvail_cases (b : IoBufs) (l : Nat) :
